@@ -218,6 +218,10 @@ SuffixRules(e) ==
       IF e.minlen > e.maxlen \/ e.minlen < 0 THEN {}        \* outside the quantifier of C10 (only: no panic)
       ELSE IF ~pre THEN { <<"C09.segments_input", FALSE>> } \* the inputs of Segments are wrong: not a C10 verdict
       ELSE SegRules(e.t, e.sa, e.sainv, e.lcp, e.minlen, e.maxlen, e.cbs, N(e.t) <= 40)
+           \cup { (* the documentation allows Segments to modify sa only: a caller  *)
+                  (* that reuses its LCP table for a second call (another maxLen)  *)
+                  (* must get the groups of the text again                         *)
+                  <<"C10.lcp_untouched", e.lcp_after = e.lcp>> }
     [] e.op = "panic" ->
       IF e.in = "segments" THEN { <<"C10.no_panic", FALSE>> }
       ELSE IF e.in = "suffixcfg" THEN { <<"DRIFT09.no_panic", FALSE>> }
